@@ -106,10 +106,26 @@ def check_degree_recompute(ctx, rule='A11'):
     fn = ctx.fn(f'{TRAV}:get_unconnected_connectors')
     cfg = build_cfg(fn)
     sinks = guards.call_nodes(cfg, 'is_valid')
-    if not sinks:
-        raise AnalysisError('get_unconnected_connectors: no is_valid() consumer found')
     recv = {norm(c.func.value) for s in sinks for c in ast.walk(s.ast) if isinstance(c, ast.Call) and
             call_name(c) == 'is_valid' and isinstance(c.func, ast.Attribute)}
+    # `is_valid` read inside a private helper that receives the connector as an argument: the call of the helper is
+    # the read (extract method)
+    via_helper = {}
+    for h in unit_functions(ctx.prog, fn)[1:]:
+        readers = {norm(c.func.value) for c in walk_fn(h) if isinstance(c, ast.Call) and call_name(c) == 'is_valid' and
+                   isinstance(c.func, ast.Attribute) and isinstance(c.func.value, ast.Name)}
+        for pi, pn in enumerate(h.params):
+            if pn in readers:
+                for nd in cfg.nodes:
+                    if nd.ast is None or nd.kind not in ('stmt', 'test'):
+                        continue
+                    for c in ast.walk(nd.ast):
+                        if isinstance(c, ast.Call) and call_name(c) == h.name and len(c.args) > pi and \
+                                isinstance(c.args[pi], ast.Name):
+                            via_helper.setdefault(c.args[pi].id, []).append(nd)
+    if not sinks and not via_helper:
+        raise AnalysisError('get_unconnected_connectors: no is_valid() consumer found')
+    recv |= set(via_helper)
     for r in sorted(recv):
         upd = guards.call_nodes(cfg, 'update_deg', pred=lambda c, r=r: isinstance(c.func, ast.Attribute) and
                                 norm(c.func.value) == r and c.args and 'graph' in norm(c.args[0]))
@@ -119,7 +135,7 @@ def check_degree_recompute(ctx, rule='A11'):
             'ConnectorDegreeGroupingNode' in norm(atom.args[1]))
         kills = [k for k in cfg.nodes if r in __import__('sa.cfg', fromlist=['node_defs']).node_defs(k)]
         my_sinks = [s for s in sinks if any(isinstance(c, ast.Call) and call_name(c) == 'is_valid' and
-                                            norm(c.func.value) == r for c in ast.walk(s.ast))]
+                                            norm(c.func.value) == r for c in ast.walk(s.ast))] + via_helper.get(r, [])
         for i, s in enumerate(my_sinks):
             # from the last binding of r, the sink is unreachable without passing update_deg (or the
             # not-a-grouping-node edge)
@@ -234,19 +250,50 @@ def _effective_keywords(prog, f, call):
                             yield k2.arg, k2.value, m
 
 
-def _fresh_value(f, v):
+_PROG = [None]
+
+
+def _fresh_call(f, c, depth=0):
+    """Is the value of the call a new object: .copy(), a constructor of a builtin container, _get_empty_graph(), or
+    a helper of the same class all of whose returns are such values (one `extract method` away)?"""
+    if isinstance(c.func, ast.Attribute) and c.func.attr in ('copy', 'deepcopy', '_get_empty_graph'):
+        return True
+    if isinstance(c.func, ast.Name) and c.func.id in ('list', 'dict', 'set'):
+        return True
+    prog = _PROG[0]
+    if prog is not None and depth < 2 and isinstance(c.func, ast.Attribute) and isinstance(c.func.value, ast.Name) and \
+            c.func.value.id == 'self' and f.owner_class is not None:
+        m = next((k.methods[c.func.attr] for k in prog.mro(f.owner_class) if c.func.attr in k.methods), None)
+        if m is not None:
+            rets = [r for r in walk_fn(m) if isinstance(r, ast.Return)]
+            return bool(rets) and all(r.value is not None and _fresh_value(m, r.value, depth + 1) for r in rets)
+    return False
+
+
+def _fresh_value(f, v, depth=0):
     if isinstance(v, ast.Name):
         defs = [s for s in walk_fn(f) if isinstance(s, ast.Assign) and norm(s.targets[0]) == v.id]
-        return bool(defs) and all(
-            (isinstance(d.value, ast.Call) and (
-                (isinstance(d.value.func, ast.Attribute) and d.value.func.attr in ('copy', '_get_empty_graph')) or
-                (isinstance(d.value.func, ast.Name) and d.value.func.id in ('list', 'dict', 'set')))) or
+        # definitions made only for the in-place mode do not reach a constructor call (that mode returns self)
+        live = [d for d in defs if not _only_inplace(f, d)]
+        return bool(live) and all(
+            (isinstance(d.value, ast.Call) and _fresh_call(f, d.value, depth)) or
             (isinstance(d.value, ast.IfExp) and 'inplace' in norm(d.value.test))
-            for d in defs)
-    if isinstance(v, ast.Call) and isinstance(v.func, ast.Attribute) and v.func.attr == 'copy':
-        return True
-    if isinstance(v, ast.Call) and isinstance(v.func, ast.Name) and v.func.id in ('list', 'dict', 'set'):
-        return True
+            for d in live)
+    if isinstance(v, ast.Call):
+        return _fresh_call(f, v, depth)
+    return False
+
+
+def _only_inplace(f, d):
+    """Is the statement inside the `if inplace:` branch (or the else branch of `if not inplace`) of f?"""
+    for node in ast.walk(f.node):
+        if isinstance(node, ast.If):
+            t = norm(node.test)
+            if t == 'inplace' and any(x is d for st in node.body for x in ast.walk(st)):
+                return True
+            if t in ('not inplace', 'inplace is False', 'inplace == False') and \
+                    any(x is d for st in node.orelse for x in ast.walk(st)):
+                return True
     return False
 
 
@@ -255,6 +302,7 @@ def check_constructor_store(ctx, cls_key=DSG, rule='A11s'):
     new graph object: the constructor copies its argument, or every constructor call passes a fresh object."""
     from .prov import MUTATORS
     prog = ctx.prog
+    _PROG[0] = prog
     cls = prog.cls(cls_key)
     classes = [cls] + prog.subclasses(cls)
     # attributes with in-place writers
